@@ -379,6 +379,7 @@ func LemmaFirstId(ruleId string, lines [][]byte, i int) {
 //@   ensures[C11,C15,C16] one-write-own-path: fsWrites() == old(fsWrites())+1 && lastWritePath() == filePath
 //@   checks[C11,C12] addressed-line: SpecIsTarget(ruleId, chainOffset, utils.OpaqueSplitNL(old(fileContent(filePath))), index)
 //@   checks[C11,C12] line-has-rx-operand: reMatch(regex.RuleRxRegex, string(utils.OpaqueSplitNL(old(fileContent(filePath)))[index]))
+//@   checks[C11,C12] groups-span-the-line: string(utils.OpaqueSplitNL(old(fileContent(filePath)))[index]) == reGroup(regex.RuleRxRegex, string(utils.OpaqueSplitNL(old(fileContent(filePath)))[index]), 1)+reGroup(regex.RuleRxRegex, string(utils.OpaqueSplitNL(old(fileContent(filePath)))[index]), 2)+reGroup(regex.RuleRxRegex, string(utils.OpaqueSplitNL(old(fileContent(filePath)))[index]), 3)
 //@   checks[C11,C12] only-operand-replaced: lastWriteData() == utils.OpaqueJoinNL(SpecSetLine(utils.OpaqueSplitNL(old(fileContent(filePath))), index, reGroup(regex.RuleRxRegex, string(utils.OpaqueSplitNL(old(fileContent(filePath)))[index]), 1)+newRegex+reGroup(regex.RuleRxRegex, string(utils.OpaqueSplitNL(old(fileContent(filePath)))[index]), 3)))
 //@   loop 0 invariant 0 <= rangeIndex0 && rangeIndex0 <= len(lines) && implies(rangeIndex0 > 0, index == rangeIndex0-1) && implies(rangeIndex0 == 0, index == 0)
 //@   loop 0 invariant implies(!foundRule, SpecFirstId(ruleId, lines, 0) >= rangeIndex0 && chainCount == 0)
